@@ -68,22 +68,25 @@ theorem fieldsIn_until (v : Option (Nat × Nat × Nat × Nat × Nat × Nat)) :
 theorem fieldsIn_partOf (name : String) (mk : List Int → Update) (f : Field) (hf : ∀ l, (mk l).field = f)
     (hname : ∀ c ∈ lit name, isAtom c = true)
     (hh : ∀ value l, intList value = .ok l → handleU {} (lit name) value = .ok (mk l))
-    (v : Option (List Int)) (hv : v ≠ some []) : FieldsIn (partOf name v) f := by
-  cases v with
-  | none => exact fieldsIn_nil _
-  | some l =>
-    have hne : l ≠ [] := fun h => hv (by rw [h])
+    (v : Option (List Int)) : FieldsIn (partOf name v) f := by
+  rcases v with _ | _ | ⟨i0, l0⟩
+  · exact fieldsIn_nil _
+  · exact fieldsIn_nil _
+  · generalize hl : i0 :: l0 = l
+    have hne : l ≠ [] := by rw [← hl]; simp
     have hemp : l.isEmpty = false := by cases l with | nil => exact absurd rfl hne | cons => rfl
     simp only [partOf, hemp, Bool.false_eq_true, if_false, List.append_assoc, List.singleton_append]
     rw [← hf l]
     exact fieldsIn_single (po := {}) hname (showInts_valC l) (hh _ l (intList_showInts l hne))
 
-theorem fieldsIn_byday (v : Option (List WDay)) (hv : ∀ l, v = some l → l ≠ [] ∧ ∀ w ∈ l, NormalWDay w) :
+theorem fieldsIn_byday (v : Option (List WDay)) (hv : ∀ l, v = some l → ∀ w ∈ l, NormalWDay w) :
     FieldsIn (byDayPart v) .byweekday := by
-  cases v with
-  | none => exact fieldsIn_nil _
-  | some l =>
-    obtain ⟨hne, hn⟩ := hv l rfl
+  rcases v with _ | _ | ⟨w0, l0⟩
+  · exact fieldsIn_nil _
+  · exact fieldsIn_nil _
+  · generalize hl : w0 :: l0 = l at hv
+    have hne : l ≠ [] := by rw [← hl]; simp
+    have hn := hv l rfl
     have hemp : l.isEmpty = false := by cases l with | nil => exact absurd rfl hne | cons => rfl
     simp only [byDayPart, hemp, Bool.false_eq_true, if_false]
     exact fieldsIn_single (po := {}) (name := lit "BYDAY") (by decide)
@@ -102,19 +105,19 @@ theorem partsOf_fields (x : StrIn) (hx : Printable x) : ((partsOf x).map partFie
   have il : ∀ (name : String) (mk : List Int → Update) (f : Field), (∀ l, (mk l).field = f) →
       (∀ c ∈ lit name, isAtom c = true) →
       (∀ value l, intList value = .ok l → handleU {} (lit name) value = .ok (mk l)) →
-      ∀ v, v ≠ some [] → FieldsIn (partOf name v) f := fieldsIn_partOf
+      ∀ v, FieldsIn (partOf name v) f := fieldsIn_partOf
   have h := ((((((((((((((fieldsIn_freq x.freq hx.freq).append (fieldsIn_interval x.interval)).append
     (fieldsIn_wkst x.wkst hx.wkst0 hx.wkst6)).append (fieldsIn_count x.count)).append (fieldsIn_until x.untilV)).append
-    (il "BYSETPOS" .bysetpos .bysetpos (fun _ => rfl) (by decide) (by intro value l h; simp [handleU, lit, h, bind, Except.bind]) _ hx.bysetpos)).append
-    (il "BYMONTH" .bymonth .bymonth (fun _ => rfl) (by decide) (by intro value l h; simp [handleU, lit, h, bind, Except.bind]) _ hx.bymonth)).append
-    (il "BYMONTHDAY" .bymonthday .bymonthday (fun _ => rfl) (by decide) (by intro value l h; simp [handleU, lit, h, bind, Except.bind]) _ hx.bymonthday)).append
-    (il "BYYEARDAY" .byyearday .byyearday (fun _ => rfl) (by decide) (by intro value l h; simp [handleU, lit, h, bind, Except.bind]) _ hx.byyearday)).append
-    (il "BYWEEKNO" .byweekno .byweekno (fun _ => rfl) (by decide) (by intro value l h; simp [handleU, lit, h, bind, Except.bind]) _ hx.byweekno)).append
+    (il "BYSETPOS" .bysetpos .bysetpos (fun _ => rfl) (by decide) (by intro value l h; simp [handleU, lit, h, bind, Except.bind]) x.orig.bysetpos)).append
+    (il "BYMONTH" .bymonth .bymonth (fun _ => rfl) (by decide) (by intro value l h; simp [handleU, lit, h, bind, Except.bind]) x.orig.bymonth)).append
+    (il "BYMONTHDAY" .bymonthday .bymonthday (fun _ => rfl) (by decide) (by intro value l h; simp [handleU, lit, h, bind, Except.bind]) x.orig.bymonthday)).append
+    (il "BYYEARDAY" .byyearday .byyearday (fun _ => rfl) (by decide) (by intro value l h; simp [handleU, lit, h, bind, Except.bind]) x.orig.byyearday)).append
+    (il "BYWEEKNO" .byweekno .byweekno (fun _ => rfl) (by decide) (by intro value l h; simp [handleU, lit, h, bind, Except.bind]) x.orig.byweekno)).append
     (fieldsIn_byday _ hx.byweekday)).append
-    (il "BYHOUR" .byhour .byhour (fun _ => rfl) (by decide) (by intro value l h; simp [handleU, lit, h, bind, Except.bind]) _ hx.byhour)).append
-    (il "BYMINUTE" .byminute .byminute (fun _ => rfl) (by decide) (by intro value l h; simp [handleU, lit, h, bind, Except.bind]) _ hx.byminute)).append
-    (il "BYSECOND" .bysecond .bysecond (fun _ => rfl) (by decide) (by intro value l h; simp [handleU, lit, h, bind, Except.bind]) _ hx.bysecond)).append
-    (il "BYEASTER" .byeaster .byeaster (fun _ => rfl) (by decide) (by intro value l h; simp [handleU, lit, h, bind, Except.bind]) _ hx.byeaster)
+    (il "BYHOUR" .byhour .byhour (fun _ => rfl) (by decide) (by intro value l h; simp [handleU, lit, h, bind, Except.bind]) x.orig.byhour)).append
+    (il "BYMINUTE" .byminute .byminute (fun _ => rfl) (by decide) (by intro value l h; simp [handleU, lit, h, bind, Except.bind]) x.orig.byminute)).append
+    (il "BYSECOND" .bysecond .bysecond (fun _ => rfl) (by decide) (by intro value l h; simp [handleU, lit, h, bind, Except.bind]) x.orig.bysecond)).append
+    (il "BYEASTER" .byeaster .byeaster (fun _ => rfl) (by decide) (by intro value l h; simp [handleU, lit, h, bind, Except.bind]) x.orig.byeaster)
   simp only [← List.map_append] at h
   exact h
 
